@@ -9,11 +9,13 @@ import PasskeyVerif.Driver.Auth
 import PasskeyVerif.Driver.Client
 import PasskeyVerif.Driver.Secrets
 import PasskeyVerif.Driver.U2f
+import PasskeyVerif.Driver.Concurrent
 open PasskeyVerif
 
 structure DriverState where
   hid : Driver.Hid.St := {}
   au : Driver.Auth.St := {}
+  cc : Driver.Concurrent.St := {}
 
 def stepLine (st : DriverState) (line : String) : DriverState × String :=
   let (opS, impl) := match splitTab line with
@@ -32,6 +34,9 @@ def stepLine (st : DriverState) (line : String) : DriverState × String :=
     else if tok.startsWith "cl." then
       let (a, out) := Driver.Client.step st.au op impl
       ({ st with au := a }, out)
+    else if tok.startsWith "cc." then
+      let (a, c, out) := Driver.Concurrent.step st.au st.cc op impl
+      ({ st with au := a, cc := c }, out)
     else if tok.startsWith "u2f." then
       let (a, out) := Driver.U2f.step st.au op impl
       ({ st with au := a }, out)
